@@ -367,6 +367,17 @@ fn render<T: DiffableStr + ?Sized>(
         if u.to_string() != display || written2 != written || u.iter_hunks().count() != u.iter_hunks().count() {
             panic!("rendering the same UnifiedDiff object twice gives different results");
         }
+        // hunks and their changes however the iterators are consumed
+        if alg == Algorithm::Myers && !header && modes_wanted(old.as_bytes().len() + new.as_bytes().len(), 8) {
+            if let Err(e) = consumption_modes(&|| "UnifiedDiff::iter_hunks".to_string(), || u.iter_hunks(), |h| (h.to_string(), h.ops().to_vec())) {
+                panic!("{}", e);
+            }
+            if let Some(h) = u.iter_hunks().next() {
+                if let Err(e) = consumption_modes(&|| "UnifiedDiffHunk::iter_changes".to_string(), || h.iter_changes(), |c| (c.tag(), c.old_index(), c.new_index(), c.value().as_bytes().as_ptr() as usize, c.value().as_bytes().len())) {
+                    panic!("{}", e);
+                }
+            }
+        }
         // environment answers of the byte sink: a writer that takes only a few bytes per call
         // (and implements nothing but write/flush), the same behind a BufWriter and behind a
         // trait object, and one that answers Interrupted on every other call
@@ -670,6 +681,7 @@ pub fn run(cfg: &RunCfg) -> CheckReport {
     );
     rep.assume("the parser accepts exactly the format the statement describes (file header only before the first hunk; '@' starts a hunk header; ' ', '-', '+' start body lines; the marker line belongs to the preceding body line)");
     rep.assume("H2 attribution hook; KF1 listed in known_findings.json");
+    rep.assume("per rendering on the Myers diff: byte sinks answering with short writes (1 / 3 / all bytes per call, BufWriter over a 2-byte sink, trait object, Interrupted on every other call), one formatter object used with other settings first and then set to the requested ones, the same object rendered twice; consumption modes of iter_hunks / hunk.iter_changes in the quick tier on text pairs of up to 8 bytes, thorough on every pair");
     let kf = KnownFindings::load(&cfg.verif_dir);
     let kf1_listed = kf.listed("C05", "KF1");
     let radii: Vec<usize> = RADII.to_vec();
